@@ -39,15 +39,19 @@ ASSUMPTIONS = [
     "spline / analytic lengths are inscribed-polyline approximations in the library: asserted two-sided "
     "len(a,b) <= len(a,m)+len(m,b) <= dense arc length (1e-5 relative slack; the harness' dense vertex set contains "
     "every parameter the library can use); analytic curves with total turning <= 4 pi must be additive to 2e-3",
-    "closest parameter: |P(t*)-q| <= dense minimum + 1e-6 of the curve length, asserted for near queries only "
-    "(measured: the library is never worse than the dense minimum when its scan starts in the right basin)",
+    "closest parameter: |P(t*)-q| <= dense minimum + 1e-3 of the curve length (twice the spacing of the 2001 dense "
+    "samples; accuracy below the sampling resolution is not claimed by the statement), asserted for near queries only; "
+    "measured over 16 000 near queries with a converged minimiser: excess <= 6.4e-6 L (>= 150x margin)",
     "a closest-parameter miss is tagged 'closest-wrong-basin' when the best of the library's 15 scan parameters lies "
     "in a basin of the distance profile whose local minimum is worse than the global one (root cause of F25), "
-    "otherwise 'closest-not-minimal'",
+    "otherwise 'closest-not-minimal'; the fact matches_pinned_algorithm (the harness repeats scan + scipy L-BFGS-B as "
+    "the pinned tree does and reaches the same parameter) separates F26 from a refinement that is wrong for another "
+    "reason",
     "LineCurve / CircleCurve follow their documented parametrisation (p1 + t (p2 - p1); the rim point rotated by t about "
     "the normal, right-handed): the harness' closed forms stand for them when sampling densely",
-    "edge cell: vertices are placed on the curve; vertices whose closest-parameter query is affected by F25 are "
-    "excluded by construction (counted); written coordinates carry 8 decimals: tolerance 1e-6 L + 2e-8",
+    "edge cell: vertices are placed on the curve; an edge whose vertex the library's closest-parameter query does not "
+    "find (F25, F26: judged in the closest cells) is excluded (counted); written coordinates carry 8 decimals: tolerance "
+    "1e-6 L + 2e-8",
 ]
 
 TWO_PI = 2 * math.pi
@@ -582,6 +586,21 @@ class Profile:
         return bool(self.prof[descend(self.prof, i)] <= self.d_min + tol)
 
 
+def pinned_refinement(curve, q, b0, b1, sample):
+    """Root-cause probe, used only to tag a miss (F26): the pinned tree's procedure (best of 15 scan parameters, then
+    scipy's default bounded minimiser, whose status is not looked at) -> (solver reported failure, parameter reached)"""
+    import scipy.optimize
+
+    scan = np.linspace(b0, b1, 15)
+    start = scan[int(np.argmin(np.linalg.norm(sample(scan) - q, axis=1)))]
+    try:
+        res = scipy.optimize.minimize(lambda t: float(np.linalg.norm(np.asarray(curve.get_point(t[0])) - q)), (start,),
+                                      bounds=((b0, b1),))
+    except Exception:  # noqa: BLE001
+        return True, math.nan
+    return not bool(res.success), float(res.x[0])
+
+
 def query_point(case, sample):
     spec = case["curve"]
     qs = case["query"]
@@ -658,19 +677,24 @@ def check_closest_function(case, ctx: Ctx) -> None:
             return
         raise Violation("closest-raised", f"get_closest_param raised {type(ex).__name__}: {ex}", **facts_of(case)) from None
     prof = Profile(sample, b0, b1, q, scan_bounds=(b0, b1))
-    tol = 1e-6 * prof.length
+    tol = 1e-3 * prof.length  # twice the spacing of the dense samples; refinement noise measured <= 6.4e-6 L
     good = d <= prof.d_min + tol and b0 - 1e-9 * (b1 - b0) <= t <= b1 + 1e-9 * (b1 - b0)
     if mode == "far":
         ctx.label("far:as-good" if good else "far:worse")
         return
     modes = prof.modes()
     in_basin = prof.scan_in_global_basin(tol)
+    # "stalled": the returned parameter is one of the 15 scan parameters itself (the refinement made no progress)
+    stalled = bool(np.min(np.abs(np.linspace(b0, b1, 15) - t)) <= 1e-12 * (b1 - b0))
     facts = facts_of(case, t=t, distance=d, dense_min=prof.d_min, t_dense=float(prof.ts[prof.i_min]), modes=modes,
-                     scan_in_global_basin=in_basin, frac=case["query"]["frac"], length=prof.length)
+                     scan_in_global_basin=in_basin, stalled=stalled, frac=case["query"]["frac"], length=prof.length)
     if not (b0 - 1e-9 * (b1 - b0) <= t <= b1 + 1e-9 * (b1 - b0)):
         raise Violation("closest-out-of-bounds", f"get_closest_param returned {t}, bounds are ({b0}, {b1})", **facts)
     if not good:
         kind = "closest-not-minimal" if in_basin else "closest-wrong-basin"
+        failed, t_pinned = pinned_refinement(curve, q, b0, b1, sample)
+        facts["minimiser_failed"] = failed
+        facts["matches_pinned_algorithm"] = bool(abs(t_pinned - t) <= 1e-9 * (b1 - b0))
         raise Violation(kind, f"returned t = {t} at distance {d}; the dense sample at t = {facts['t_dense']} is at "
                         f"{prof.d_min} (curve length {prof.length}, {modes} local minima)", **facts)
     ctx.nt(spacing_ratio(spec) > 2)
@@ -755,12 +779,48 @@ def build_edge_mesh(case, curve, v1, v2):
     return mesh, np.concatenate((bottom, top))
 
 
-def nearest_in(sample, lo, hi, q):
-    """(t, distance) of the curve point closest to q with parameter in [lo, hi]"""
-    if hi - lo <= 0:
-        t = lo
-        return t, float(np.linalg.norm(sample([t])[0] - q))
-    return Profile(sample, lo, hi, q, n=801).refined()
+class CurveSamples:
+    """The curve sampled once, refined until neighbouring samples are no further apart than 1/1500 of its length (the
+    parametrisation of an interpolated curve can be 100x faster in one place than in another)."""
+
+    def __init__(self, sample, b0, b1, extra=()):
+        self.sample = sample
+        ts = dense_params(b0, b1, extra, n=801)
+        pts = sample(ts)
+        for _ in range(12):
+            seg = np.linalg.norm(np.diff(pts, axis=0), axis=1)
+            long = np.nonzero(seg > seg.sum() / 1500)[0]
+            if len(long) == 0 or len(ts) > 12000:
+                break
+            mid = 0.5 * (ts[long] + ts[long + 1])
+            ts = np.concatenate((ts, mid))
+            pts = np.concatenate((pts, sample(mid)))
+            order = np.argsort(ts, kind="stable")
+            ts, pts = ts[order], pts[order]
+        self.ts, self.pts = ts, pts
+        self.length = polyline(pts)
+
+    def minima(self, q, lo, hi, keep=6):
+        """refined local minima [(distance, t)] of |P(t) - q| over [lo, hi], best first"""
+        sel = np.nonzero((self.ts >= lo) & (self.ts <= hi))[0]
+        if len(sel) == 0:
+            t = 0.5 * (lo + hi)
+            return [(float(np.linalg.norm(self.sample([t])[0] - q)), t)]
+        ts = self.ts[sel]
+        prof = np.linalg.norm(self.pts[sel] - q, axis=1)
+        cand = [i for i in range(len(prof))
+                if prof[i] <= (prof[i - 1] if i > 0 else math.inf) and prof[i] <= (prof[i + 1] if i < len(prof) - 1 else math.inf)]
+        cand = sorted(cand, key=lambda i: prof[i])[:keep]
+        out = []
+        for i in cand:
+            a, b = max(lo, ts[max(i - 1, 0)]), min(hi, ts[min(i + 1, len(ts) - 1)])
+            t, d = golden(lambda t: float(np.linalg.norm(self.sample([t])[0] - q)), a, b, iters=45) if b > a else (a, prof[i])
+            out.append((min(d, float(prof[i])), float(t) if d <= prof[i] else float(ts[i])))
+        return sorted(out)
+
+    def nearest(self, q, lo, hi):
+        d, t = self.minima(q, lo, hi)[0]
+        return t, d
 
 
 def check_edge(case, ctx: Ctx) -> None:
@@ -770,20 +830,26 @@ def check_edge(case, ctx: Ctx) -> None:
     b0, b1 = bounds_of(spec)
     t1, t2 = case["params"]
     v1, v2 = sample([t1])[0], sample([t2])[0]
-    whole = Profile(sample, b0, b1, v1, scan_bounds=(b0, b1))
-    L = whole.length
+    cs = CurveSamples(sample, b0, b1, break_params(spec) or ())
+    L = cs.length
     tol = 1e-6 * L + 2e-8
     if np.linalg.norm(v1 - v2) < 1e-3 * L:
         ctx.label("excluded:coincident-ends")
         return
-    # the vertices' own parameters must be well defined and reachable by the library's query (else: F25's domain)
+    # the vertices' own parameters must be well defined (the curve passes there once) and the library's closest-parameter
+    # query must find them: its defects (F25, F26) are judged in the closest cells and excluded here (counted)
     for v, t in ((v1, t1), (v2, t2)):
-        p = whole if v is v1 else Profile(sample, b0, b1, v, scan_bounds=(b0, b1))
-        if not p.scan_in_global_basin(1e-6 * L):
-            ctx.label("excluded:F25")
-            return
-        if abs(p.refined()[0] - t) > 1e-4 * (b1 - b0):
+        mins = cs.minima(v, b0, b1)
+        if abs(mins[0][1] - t) > 1e-4 * (b1 - b0) or sum(1 for d, _ in mins if d <= 1e-4 * L) != 1:
             ctx.label("excluded:self-intersection")
+            return
+        try:
+            t_lib = float(curve.get_closest_param(v))
+            d_lib = float(np.linalg.norm(sample([min(b1, max(b0, t_lib))])[0] - v))
+        except Exception:  # noqa: BLE001
+            d_lib = math.inf
+        if d_lib > 1e-6 * L:
+            ctx.label("excluded:closest-param-defect")
             return
     facts = facts_of(case, position=case["position"], representation=case["representation"], n_points=case["n_points"],
                      reversed=t1 > t2)
@@ -817,20 +883,24 @@ def check_edge(case, ctx: Ctx) -> None:
     lo, hi = min(t1, t2), max(t1, t2)
     slack = 1e-6 * (b1 - b0)
     prev = t1
+    sign = 1.0 if t2 >= t1 else -1.0
     for i, p in enumerate(pts):
-        t, d = nearest_in(sample, lo, hi, p)
         if min(np.linalg.norm(p - v1), np.linalg.norm(p - v2)) <= tol:
             raise Violation("edge-point-at-vertex", f"point {i} {p.tolist()} repeats the position of an end vertex",
                             **facts, index=i)
-        if d > tol:
-            _, d_any = nearest_in(sample, b0, b1, p)
+        mins = cs.minima(p, lo, hi)
+        on_curve = [t for d, t in mins if d <= tol]
+        if not on_curve:
+            _, d_any = cs.nearest(p, b0, b1)
             kind = "edge-point-off-curve" if d_any > tol else "edge-point-outside-range"
-            raise Violation(kind, f"point {i} {p.tolist()} is {d} from the curve between parameters {lo} and {hi} "
+            raise Violation(kind, f"point {i} {p.tolist()} is {mins[0][0]} from the curve between parameters {lo} and {hi} "
                             f"({d_any} from the whole curve)", **facts, index=i)
-        if (t - prev) * (t2 - t1) < -slack * abs(t2 - t1):
-            raise Violation("edge-points-not-ordered", f"point {i} has parameter {t}, the previous one {prev} (edge runs "
-                            f"{t1} -> {t2})", **facts, index=i)
-        prev = t
+        # a curve may pass a point more than once: the points are in order if parameters can be chosen monotonically
+        ahead = [t for t in on_curve if (t - prev) * sign >= -slack]
+        if not ahead:
+            raise Violation("edge-points-not-ordered", f"point {i} has parameter {on_curve[0]}, the previous one {prev} (edge "
+                            f"runs {t1} -> {t2})", **facts, index=i)
+        prev = min(ahead, key=lambda t: (t - prev) * sign)
     # Edge.length
     curved = [e for e in mesh.edge_list.edges if e.kind == "curve"]
     if len(curved) != 1:
@@ -844,11 +914,12 @@ def check_edge(case, ctx: Ctx) -> None:
     facts.update(length=length, dense=dense)
     if spec["type"] in ("linear", "line"):
         want = ref_linear_length(ref, brk, t1, t2)
-        if abs(length - want) > 1e-6 * L:
+        # the library's own end parameters may be off by the 1e-6 L admitted above, at either end
+        if abs(length - want) > 1e-5 * L:
             raise Violation("edge-length", f"Edge.length = {length}, polyline length between the vertices = {want}", **facts)
     elif spec["type"] == "spline":
         inscribed = polyline(sample([lo, *[t for t in brk if lo < t < hi], hi]))
-        if not (inscribed * (1 - 1e-6) - 1e-9 * L <= length <= dense * (1 + 1e-5) + 1e-9 * L):
+        if not (inscribed - 1e-5 * L <= length <= dense * (1 + 1e-5) + 1e-5 * L):
             raise Violation("edge-length", f"Edge.length = {length} outside [{inscribed} (polyline through the defining "
                             f"points), {dense} (dense arc length)]", **facts)
     else:
@@ -862,27 +933,27 @@ def check_edge(case, ctx: Ctx) -> None:
 # --------------------------------------------------------------------------------------------------
 
 CELLS = [
-    Cell("C16/ends", ends_case(), check_ends, 600, 20000,
+    Cell("C16/ends", ends_case(), check_ends, 1500, 25000,
          "all six curve types: discretize(a, b[, count]) starts at get_point(a) and ends at get_point(b), either order, "
          "None = bound"),
-    Cell("C16/through-points", point_curve(("linear", "spline")).map(lambda s: {"curve": s}), check_through, 300, 10000,
+    Cell("C16/through-points", point_curve(("linear", "spline")).map(lambda s: {"curve": s}), check_through, 800, 12000,
          "interpolated curves reproduce every defining point at the harness' own chord-length / uniform parameter"),
-    Cell("C16/length/discrete", length_discrete_case(), check_length_discrete, 300, 10000,
+    Cell("C16/length/discrete", length_discrete_case(), check_length_discrete, 800, 12000,
          "DiscreteCurve: length = polyline of the points between the indexes, symmetric, additive at an index"),
-    Cell("C16/length/linear", curve_and_params(point_curve(("linear",)), k=3), check_length_linear, 500, 20000,
+    Cell("C16/length/linear", curve_and_params(point_curve(("linear",)), k=3), check_length_linear, 1500, 25000,
          "LinearInterpolatedCurve: length = polyline P(a), break points between, P(b) from the harness' model; symmetric; "
          "additive"),
-    Cell("C16/length/spline", curve_and_params(point_curve(("spline",)), k=3), check_length_spline, 250, 10000,
+    Cell("C16/length/spline", curve_and_params(point_curve(("spline",)), k=3), check_length_spline, 750, 12000,
          "SplineInterpolatedCurve: symmetric; len(a,b) <= len(a,m)+len(m,b) <= dense arc length; >= chord"),
-    Cell("C16/length/analytic", curve_and_params(analytic_curve(), k=3), check_length_analytic, 300, 10000,
+    Cell("C16/length/analytic", curve_and_params(analytic_curve(), k=3), check_length_analytic, 900, 15000,
          "Line: exact and additive; circle / helix / cubic: symmetric, two-sided bound, additive to 2e-3"),
-    Cell("C16/closest/discrete", closest_case(point_curve(("discrete",))), check_closest_discrete, 300, 10000,
+    Cell("C16/closest/discrete", closest_case(point_curve(("discrete",))), check_closest_discrete, 800, 12000,
          "DiscreteCurve: returned index is a nearest point (near queries; far counted)"),
-    Cell("C16/closest/interpolated", closest_case(point_curve(("linear", "spline"))), check_closest_function, 350, 12000,
+    Cell("C16/closest/interpolated", closest_case(point_curve(("linear", "spline"))), check_closest_function, 1000, 20000,
          "interpolated curves: point at the returned parameter is as close as the dense minimum (near queries)"),
-    Cell("C16/closest/analytic", closest_case(analytic_curve()), check_closest_function, 300, 10000,
+    Cell("C16/closest/analytic", closest_case(analytic_curve()), check_closest_function, 900, 15000,
          "analytic curves, seam of closed circles avoided: as close as the dense minimum (near queries)"),
-    Cell("C16/edge/oncurve", edge_case(), check_edge, 250, 8000,
+    Cell("C16/edge/oncurve", edge_case(), check_edge, 700, 12000,
          "one OnCurve edge in any of 12 positions, either direction, spline / polyLine: written points on the curve "
          "between and ordered from vertex 1 to vertex 2; Edge.length = curve length between the vertices"),
 ]
